@@ -93,10 +93,6 @@ theorem U_layout (level index : Nat) (hl : level < 2^8) (hi : index < 2^56) :
   than 2^64 bits (the report's bound; it keeps the node index inside its 56-bit field), and an explicit bit length
   does not exceed the message. `m` = the bit length actually hashed = `bitlen` if given, else 8|M|. -/
 
-private theorem dom {d L r : Nat} {key : List Nat} (hd : d ≤ 512) (hL : L ≤ 64) (hr1 : 1 ≤ r) (hr : r < 4096)
-    (hkey : key.length ≤ 64) (hkb : ∀ x ∈ key, x < 256) : Md6Mode.Dom d L r key :=
-  ⟨by omega, by omega, hr1, by omega, hkey, hkb⟩
-
 /-- one call of MD6.PAR at any level 1..255 is the report's PAR: j = max(1,⌈m/4096⌉) compressions of
     Q‖K‖U(ℓ,i)‖V(r,L,z,p,keylen,d)‖B_i with z = [j = 1] and p = the padding bits of the last block -/
 theorem par_level_refines (d L r : Nat) (key M : List Nat) (level : Nat) (bitlen : Option Nat)
@@ -105,7 +101,7 @@ theorem par_level_refines (d L r : Nat) (key M : List Nat) (level : Nat) (bitlen
     (hbl : bitlen.getD (8 * M.length) ≤ 8 * M.length) (hlen : 8 * M.length < 2 ^ 64) :
     Md6.PAR (Md6.new d key L (some r)) level M bitlen =
       .ok (Spec.Md6.ofWords (Spec.Md6.par ⟨d, key, L, r⟩ level M (bitlen.getD (8 * M.length)))) :=
-  Md6Mode.par_refines (dom hd hL hr1 hr hkey hkb) level hlevel M hM bitlen hbl hlen
+  Md6Mode.par_refines (Md6Mode.dom_of hd hL hr1 hr hkey hkb) level hlevel M hM bitlen hbl hlen
 
 /-- MD6.SEQ is the report's SEQ (chained compressions with the 16-word chaining prefix, z = 1 and p on the last
     block only, node ids (L+1, i)) followed by the final chop to d bits -/
@@ -115,7 +111,7 @@ theorem seq_refines (d L r : Nat) (key M : List Nat) (bitlen : Option Nat)
     (hbl : bitlen.getD (8 * M.length) ≤ 8 * M.length) (hlen : 8 * M.length < 2 ^ 64) :
     Md6.SEQ (Md6.new d key L (some r)) M bitlen =
       .ok (Spec.Md6.chop d (Spec.Md6.seq ⟨d, key, L, r⟩ M (bitlen.getD (8 * M.length)))) :=
-  Md6Mode.seq_refines (dom hd hL hr1 hr hkey hkb) (by omega) M hM bitlen hbl hlen
+  Md6Mode.seq_refines (Md6Mode.dom_of hd hL hr1 hr hkey hkb) (by omega) M hM bitlen hbl hlen
 
 /-- END-TO-END: for every digest size d ≤ 512, every mode parameter L ≤ 64 (sequential, hybrid, hierarchical),
     every key of at most 64 bytes, every round count 1 ≤ r < 4096 assigned to `.rounds`, every message and every
@@ -128,7 +124,7 @@ theorem md6_refines (d L r : Nat) (key M : List Nat) (bitlen : Option Nat)
     Md6.call (Md6.new d key L (some r)) M bitlen =
       .ok (Spec.Md6.md6 ⟨d, key, L, r⟩ M (bitlen.getD (8 * M.length))) := by
   unfold Md6.call Spec.Md6.md6
-  exact Md6Mode.loop_refines (dom hd hL hr1 hr hkey hkb) (by omega) M.length 0 M bitlen (Nat.zero_le _) hM hbl hlen
+  exact Md6Mode.loop_refines (Md6Mode.dom_of hd hL hr1 hr hkey hkb) (by omega) M.length 0 M bitlen (Nat.zero_le _) hM hbl hlen
     (by omega)
 
 /-- … and with the constructor's default round count, which is the report's r = 40 + ⌊d/4⌋ (≥ 80 with a key) -/
